@@ -79,7 +79,7 @@ func (op *seriesFiltering) findSeriesIDsByExpr(condition stmt.Expr) (tag.KeyID, 
 		return op.findSeriesIDsByExpr(expr.Expr)
 	case *stmt.NotExpr:
 		if tagFilter, ok := expr.Expr.(stmt.TagFilter); ok {
-			if rs, ok := op.executeCtx.StorageExecuteCtx.TagFilterResult[tagFilter.Rewrite()]; ok && rs.TagKeyNotFound {
+			if rs, ok := op.executeCtx.StorageExecuteCtx.TagFilterResult[tagFilterKey(tagFilter)]; ok && rs.TagKeyNotFound {
 				// no series of this node carries the tag key: nothing to negate
 				return 0, roaring.New()
 			}
@@ -110,7 +110,7 @@ func (op *seriesFiltering) findSeriesIDsByExpr(condition stmt.Expr) (tag.KeyID, 
 
 // getTagKeyID returns the tag key id by tag key
 func (op *seriesFiltering) getSeriesIDsByExpr(expr stmt.Expr) (tag.KeyID, *roaring.Bitmap, error) {
-	tagValues, ok := op.executeCtx.StorageExecuteCtx.TagFilterResult[expr.Rewrite()]
+	tagValues, ok := op.executeCtx.StorageExecuteCtx.TagFilterResult[tagFilterKey(expr)]
 	if !ok {
 		return 0, nil, fmt.Errorf("%w, expr: %s", constants.ErrTagValueFilterResultNotFound, expr.Rewrite())
 	}
